@@ -60,6 +60,7 @@ type fileRewriter struct {
 	info    *types.Info
 	edits   []edit
 	needVrt bool
+	skip    map[ast.Node]bool // nodes whose text an enclosing rewrite has already replaced
 	path    string
 	stats   map[string]int
 }
@@ -156,6 +157,9 @@ func (r *fileRewriter) rewrite() {
 			r.replace(x.Pos(), x.Value.Pos(), "*vrt.Chan[")
 			r.insert(x.Value.End(), "]")
 		case *ast.SendStmt:
+			if r.skip[x] {
+				return false
+			}
 			r.needVrt = true
 			r.stats["send"]++
 			r.insert(x.Pos(), "vrt.Send(")
@@ -375,6 +379,10 @@ func (r *fileRewriter) rewriteSelect(x *ast.SelectStmt) {
 			c.Arrow = token.NoPos
 			idx++
 			// neutralise the generic SendStmt rule
+			if r.skip == nil {
+				r.skip = map[ast.Node]bool{}
+			}
+			r.skip[c] = true
 			r.neutralise(c)
 			continue
 		default:
@@ -444,6 +452,7 @@ func main() {
 	out := flag.String("out", "", "scratch directory for rewritten files and overlay.json")
 	verif := flag.String("verif", "/verif", "verif root (source of the virtual packages)")
 	mode := flag.String("mode", "full", "full: everything; seams: only map order and math/rand (for the pure harness)")
+	extra := flag.String("extra", "", "comma-separated dir=name: rewrite the plain-Go package in dir into the virtual package vrtshim/<name> (conformance programs)")
 	flag.Parse()
 	if *out == "" {
 		fmt.Fprintln(os.Stderr, "vinstr: -out required")
@@ -546,6 +555,23 @@ func main() {
 	if *mode == "full" {
 		if sf, ok := pkgs["golang.org/x/sync/singleflight"]; ok {
 			rewritePkg(sf, filepath.Join(*repo, "vrtshim", "singleflight"))
+		}
+	}
+	if *mode == "full" && *extra != "" {
+		for _, ex := range strings.Split(*extra, ",") {
+			dir, name, ok := strings.Cut(ex, "=")
+			if !ok {
+				fmt.Fprintln(os.Stderr, "vinstr: -extra wants dir=name")
+				os.Exit(2)
+			}
+			files, _ := filepath.Glob(filepath.Join(dir, "*.go"))
+			p := &listPkg{ImportPath: shimRoot + name, Dir: dir}
+			for _, f := range files {
+				if !strings.HasSuffix(f, "_test.go") {
+					p.GoFiles = append(p.GoFiles, filepath.Base(f))
+				}
+			}
+			rewritePkg(p, filepath.Join(*repo, "vrtshim", name))
 		}
 	}
 	// virtual packages
